@@ -186,6 +186,51 @@ def gen_comp_ops(rng, st, ifaces, classes, nobj, n_plain):
     return out
 
 
+FAMILY = ["lookup", "lookup1", "queryAdapter", "adapter_hook", "queryMultiAdapter", "lookupAll", "names",
+          "subscriptions", "subscribers"]
+
+
+def family_call(entry, reg, req_spec, obj, prov, name=None, default=True):
+    """one lookup-family entry point on the key (required = (req_spec,) / the object providing it,
+    provided = prov) of registry ``reg``"""
+    if entry == "lookup1":
+        req = ["raw", [req_spec]]
+    elif entry in ("queryAdapter", "adapter_hook"):
+        req = ["raw", [obj]]
+    elif entry in ("queryMultiAdapter", "subscribers"):
+        req = ["tuple", [obj]]
+    else:
+        req = ["tuple", [req_spec]]
+    if entry in ("lookupAll", "names", "subscriptions", "subscribers"):
+        return ["xreg", entry, reg, req, prov, None, False]
+    return ["xreg", entry, reg, req, prov, name, default]
+
+
+def gen_family_programs(world, ifaces, classes):
+    """every pair of lookup-family entry points, in both orders, on the SAME key of the SAME registry
+    with no mutation in between (their caches must not interfere), both flavours; plus the whole
+    family forwards and backwards, with and without registrations"""
+    objs = world["objects"]
+    cls0 = objs[0]["cls"]
+    R, O, P = ["S", cls0], ["o", 0], ["S", ifaces[0]]
+    cases = []
+    for flavour in ("push", "verifying"):
+        for filled in (True, False):
+            pre = [["newreg", flavour, []]]
+            if filled:
+                pre += [["register", 0, [0], ifaces[0], 0, [1, 1]], ["register", 0, [0], ifaces[0], 1, [3, 3]],
+                        ["subscribe", 0, [0], ifaces[0], [2, 1]], ["subscribe", 0, [cls0], ifaces[0], [3, 3]]]
+            for a in FAMILY:
+                for b in FAMILY:
+                    if a != b and (filled or FAMILY.index(a) < FAMILY.index(b)):
+                        cases.append({"world": world, "matrix": True, "ops": pre + [
+                            family_call(a, 0, R, O, P), family_call(b, 0, R, O, P), family_call(a, 0, R, O, P)]})
+            for order in (FAMILY, FAMILY[::-1]):
+                cases.append({"world": world, "matrix": True,
+                              "ops": pre + [family_call(x, 0, R, O, P) for x in order] * 2})
+    return cases
+
+
 def gen_verifying_programs(world, ifaces, classes):
     """registries below base registries whose _generation changes between calls: a miss is cached,
     the base is mutated, the call is repeated with a non-string name and with a lazy / raising
@@ -478,6 +523,15 @@ def gen_program(rng, n_ops=40, stress=None):
             if q < 0.3:
                 return [["adapt", iface, r_obj()]]
             return [["call", iface, r_obj(), rng.choice([False, True, True, "falsy"])]]
+        if r < 0.845:      # the whole lookup family on one key of one registry, shuffled, no mutation between
+            reg = rng.randrange(n_regs)
+            j = rng.randrange(n_plain)
+            R = ["S", objs[j]["cls"]] if rng.random() < 0.7 else ["P", ["o", j]]
+            P = ["S", rng.choice(ifaces + [0])]
+            nm = rng.choice([None, ["s", ""], ["s", "n1"]])
+            fam = list(FAMILY)
+            rng.shuffle(fam)
+            return [family_call(x, reg, R, ["o", j], P, nm) for x in fam[: rng.choice([4, 6, 9])]]
         if r < 0.855:      # a lookup during which the registry changes, then the same lookup again
             return [gen_reent(rng, n_regs, ifaces, classes)]
         if r < 0.90:
@@ -604,6 +658,7 @@ def gen_matrix(rng):
                         ops.append(op)
                         cases.append({"world": world, "ops": ops, "matrix": True})
     cases.extend(gen_verifying_programs(world, ifaces, classes))
+    cases.extend(gen_family_programs(world, ifaces, classes))
     # both arguments bad: a lazy required that raises and an unhashable provided (known finding G15)
     for meth in ("lookup", "lookupAll", "subscriptions", "names", "queryMultiAdapter", "subscribers"):
         cases.append({"world": world, "matrix": True,
